@@ -630,6 +630,20 @@ INPLACE_OK = {"h743.check_and_correct", "h1393.check_and_correct", "h15113.check
               "h17123.check_and_correct", "bptc.repair_deinterleaved"}
 
 
+def _immutable(o):
+    import enum
+
+    if o is None or isinstance(o, (bool, int, float, complex, str, bytes, enum.Enum, type, frozenset, range)):
+        return True
+    if type(o).__name__ == "frozenbitarray" or (type(o).__module__ or "").startswith("numpy") and not type(o).__name__ == "ndarray":
+        return True
+    if isinstance(o, tuple):
+        return all(_immutable(x) for x in o)
+    if isinstance(o, memoryview):
+        return o.readonly
+    return False
+
+
 def scribble(raw):
     """the CALLER overwrites the bit / byte buffers it was handed back (top level, or directly inside a returned list / tuple)"""
 
@@ -842,6 +856,18 @@ def serve():
                         if hashlib.sha256(now.encode()).hexdigest() != k[1]:
                             ch.append([i, squash(k[2], 300), squash(now, 300)])
                     out["held_changed"] = ch
+                    # two calls handed out the very same mutable object (both are still held, so equal ids = one object)
+                    seen, al = {}, []
+                    for i, k in enumerate(keep):
+                        if k is None:
+                            continue
+                        for o in ([k[0]] + (list(k[0]) if isinstance(k[0], (list, tuple)) else [])):
+                            if _immutable(o):
+                                continue
+                            j = seen.setdefault(id(o), i)
+                            if j != i and len(al) < 5:
+                                al.append([j, i, type(o).__name__])
+                    out["held_alias"] = al
                 out["probe"] = probe() if want_probe else None
                 return out
 
